@@ -72,7 +72,14 @@ func classB(kt string, ki int) int {
 		if ki == 2 || ki == 3 {
 			return -1
 		}
-	case "structf":
+	case "arr1f64":
+		if ki == 1 {
+			return 0
+		}
+		if ki == 2 || ki == 3 {
+			return -1
+		}
+	case "structf", "arr2f32":
 		switch ki % 6 {
 		case 1:
 			return ki - 1
@@ -97,7 +104,7 @@ func classB(kt string, ki int) int {
 
 func hasNaNKeys(kt string) bool {
 	switch kt {
-	case "float64", "float32", "complex128", "structf", "iface":
+	case "float64", "float32", "complex128", "structf", "iface", "arr1f64", "arr2f32":
 		return true
 	}
 	return false
@@ -207,7 +214,9 @@ func genMapB(rng *sim.Rng, tier string) *ScenarioB {
 				sc.Ops = append(sc.Ops, Op{K: "clear"})
 			}
 		default:
-			if kt == "iface" && rng.Intn(3) == 0 {
+			if (kt == "iface" || kt == "ptr") && rng.Intn(3) == 0 {
+				sc.Ops = append(sc.Ops, Op{K: "poke", Key: rng.Intn(sc.Pool)})
+			} else if kt == "iface" && rng.Intn(3) == 0 {
 				sc.Ops = append(sc.Ops, Op{K: []string{"setbad", "getbad", "delbad", "get1bad"}[rng.Intn(4)], Key: rng.Intn(6)})
 			} else {
 				sc.Ops = append(sc.Ops, Op{K: "len"})
@@ -250,7 +259,7 @@ func validB(sc *ScenarioB) bool {
 	return true
 }
 
-var opCodeB = map[string]int{"setzero": 14, "get1bad": 15, "add": 16, "set": 1, "get": 2, "get1": 3, "del": 4, "clear": 5, "len": 6, "istart": 7, "inext": 8, "idrop": 9, "idrain": 10, "setbad": 11, "getbad": 12, "delbad": 13}
+var opCodeB = map[string]int{"poke": 17, "setzero": 14, "get1bad": 15, "add": 16, "set": 1, "get": 2, "get1": 3, "del": 4, "clear": 5, "len": 6, "istart": 7, "inext": 8, "idrop": 9, "idrain": 10, "setbad": 11, "getbad": 12, "delbad": 13}
 
 func scriptB(sc *ScenarioB) []byte {
 	var sb bytes.Buffer
@@ -528,6 +537,10 @@ func judgeMapB(sc *ScenarioB, r bRun) (string, string) {
 			}
 			if got != want {
 				return "lookup-wrong-value", fmt.Sprintf("op %d: lookup of key #%d returned v%d, most recently stored v%d", i, op.Key, got, want)
+			}
+		case "poke":
+			if next("K", i) == nil {
+				return crashed(i, "poke")
 			}
 		case "del":
 			if next("D", i) == nil {
